@@ -356,6 +356,7 @@ def shard_worker(args):
             "sim": r["sim"],
             "signature": r["signature"],
             "unchecked": r["unchecked"],
+            "extra": r["extra"] if len(json.dumps(r["extra"], default=_canon)) < 20000 else {},
             "wall": time.time() - t0,
             "classes": sorted({(v["clause"], v["site"]) for v in r["violations"]}),
         }
@@ -398,6 +399,19 @@ def replay_file(prop, path, quiet=False):
     mod = get_check(prop)
     with open(path) as f:
         doc = json.load(f)
+    if "plans" in doc:  # aggregated (cross-run) violation: re-execute every contributing plan, re-aggregate
+        recs = []
+        h = hashlib.sha256()
+        for pl in doc["plans"]:
+            rr = run_plan(mod, pl)
+            h.update(rr["digest"].encode())
+            recs.append({"index": pl.get("_index"), "seed": pl.get("_seed"), "extra": rr["extra"], "faults": rr["faults"], "probes": rr["probes"], "classes": []})
+        viol = [dict(v) for v in mod.finalize(recs)]
+        r = {"digest": h.hexdigest(), "violations": viol}
+        if not quiet:
+            for v in viol:
+                print(f"  {v['clause']} site={v['site']}: {v['detail']}")
+        return r, doc
     r = run_plan(mod, doc["plan"])
     if not quiet:
         print(f"replay digest={r['digest']} recorded={doc.get('digest')}")
@@ -468,8 +482,23 @@ def run_tier(prop, tier, verif_seed, workers, runs=None, budget_s=None):
             else:
                 new_classes.setdefault(c, r)
 
-    # evidence ---------------------------------------------------------
     ok = [r for r in results if "error" not in r]
+    agg_violations = []
+    if hasattr(mod, "finalize"):
+        for v in mod.finalize(ok):
+            c = (v["clause"], v["site"])
+            f = match_finding(findings, prop, c[0], c[1])
+            if f:
+                known_hit.setdefault(c, [f, 0])[1] += 1
+                continue
+            plans = []
+            for idx in v.get("indices", [r["index"] for r in ok]):
+                sd = derive_seed(prop, verif_seed, tier, idx)
+                pl = mod.make_plan(random.Random(sd), tier, idx)
+                pl["_seed"], pl["_index"] = sd, idx
+                plans.append(pl)
+            agg_violations.append((c, v, plans))
+    # evidence ---------------------------------------------------------
     faults, probes, sim = {}, {}, {}
     for r in ok:
         for k, v in r["faults"].items():
@@ -515,7 +544,7 @@ def run_tier(prop, tier, verif_seed, workers, runs=None, budget_s=None):
         },
         "assumptions": mod.ASSUMPTIONS,
         "wall_s": round(wall, 2),
-        "violations": len(new_classes),
+        "violations": len(new_classes) + len(agg_violations),
     }
     os.makedirs(os.path.join(VERIF, "evidence"), exist_ok=True)
 
@@ -548,6 +577,23 @@ def run_tier(prop, tier, verif_seed, workers, runs=None, budget_s=None):
             print(f"VIOLATION property={prop} replay={path}")
         if confirmed:
             code = 1
+    for c, v, plans in agg_violations:
+        d = os.path.join(VERIF, "replays", prop)
+        os.makedirs(d, exist_ok=True)
+        path = os.path.join(d, f"aggregate_{verif_seed}_{tier}_{c[0]}_{c[1]}.json".replace("/", "_"))
+        h = hashlib.sha256()
+        byidx = {r["index"]: r for r in ok}
+        for pl in plans:
+            h.update(byidx[pl["_index"]]["digest"].encode())
+        with open(path, "w") as f:
+            json.dump({"property": prop, "plans": plans, "violations": [{k: v[k] for k in ("clause", "site", "detail")}], "digest": h.hexdigest()}, f, default=_canon)
+        conf = confirm_in_fresh_process(prop, path)
+        if conf is None or c not in conf[0] or conf[1] != h.hexdigest():
+            harness_errors.append(f"aggregated violation {c} did not reproduce in a fresh process: {conf}")
+            continue
+        print(f"  {c[0]} site={c[1]}: {v['detail']}")
+        print(f"VIOLATION property={prop} replay={path}")
+        code = 1
     ev["coverage"]["harness_errors"] = len(harness_errors)
     write_ev()
     if harness_errors:
